@@ -64,11 +64,17 @@ def _deepcopy(obj):
     return obj
 
 
-def _run_extract(ctx, cells, names, focus):
+def _xlrange(addr, members):
+    """A range as ModelCompiler.build_ranges registers it: address text and the matrix of member addresses."""
+    return Rec(cls='pkg:xltypes:XLRange', address_str=addr, name=addr, cells=[[a] for a in members], value=None, sheet=addr.split('!')[0])
+
+
+def _run_extract(ctx, cells, names, focus, ranges=None):
     mm = ctx.mod('model')
     fn = mm.func('ModelCompiler.extract')
     p = func_params(fn)
     model = _model(dict(cells), dict(names))
+    model.set('ranges', dict(ranges or {}))     # a compiled model: every range term of a formula is registered
 
     def isinst(val, refs):
         refs = refs if isinstance(refs, tuple) else (refs,)
@@ -128,7 +134,7 @@ def rule_2(ctx):
     fn = mm.func('ModelCompiler.extract')
     S = 'Sheet1!'
     cells = {S + 'A1': _cell(S + 'A1'), S + 'A2': _cell(S + 'A2'), S + 'B1': _cell(S + 'B1', [S + 'A1:A2'])}
-    model, out = _run_extract(ctx, cells, {}, [S + 'B1'])
+    model, out = _run_extract(ctx, cells, {}, [S + 'B1'], ranges={S + 'A1:A2': _xlrange(S + 'A1:A2', [S + 'A1', S + 'A2'])})
     ok = out.end == 'return'
     ctx.expect(ok, fn, 'a range term of a focused formula is not looked up as a cell',
                f'extracting a cell whose formula refers to a range ends in {out.end} {out.value!r}: the range term "Sheet1!A1:A2" is looked up '
@@ -143,7 +149,23 @@ def rule_2(ctx):
         ctx.bad(fn, 'ranges of the extracted model are populated',
                 'extract() never fills the ranges registry of the extracted model: range references in extracted formulas cannot be '
                 'materialised')
-    ctx.floor(2, 'range terms')
+    # a reference to a cell the model does not hold (a blank): the full model evaluates it as blank, extraction must not fail
+    cells = {S + 'A1': _cell(S + 'A1'), S + 'B1': _cell(S + 'B1', [S + 'A1', S + 'Z9'])}
+    model, out = _run_extract(ctx, cells, {}, [S + 'B1'])
+    ok = out.end == 'return' and _is_model(out.value) and {S + 'A1', S + 'B1'} <= set(out.value.get('cells'))
+    ctx.expect(ok, fn, 'a reference to a cell absent from the model (blank) is tolerated',
+               f'extracting a cell whose formula refers to a cell the model does not hold ends in {out.end} {out.value!r}: '
+               'the full model evaluates =A1+Z9 with an empty Z9, the extraction raises KeyError')
+    # a defined name used inside a focused formula: the name and its cell are dependencies
+    q1 = _cell(S + 'Q1')
+    cells = {S + 'Q1': q1, S + 'B1': _cell(S + 'B1', [S + 'rate'])}
+    model, out = _run_extract(ctx, cells, {'rate': q1}, [S + 'B1'])
+    ok = out.end == 'return' and _is_model(out.value) and S + 'Q1' in out.value.get('cells') and 'rate' in out.value.get('defined_names')
+    ctx.expect(ok, fn, 'a defined name used in a focused formula is extracted with its cell',
+               f'extracting a cell whose formula uses a defined name ends in {out.end} '
+               f'{(sorted(out.value.get("cells")), sorted(out.value.get("defined_names"))) if out.end == "return" and _is_model(out.value) else out.value!r}: '
+               'the name and the cell it is bound to must be part of the extracted model')
+    ctx.floor(4, 'range terms, blank references and names')
 
 
 def rule_3(ctx):
@@ -156,6 +178,7 @@ def rule_3(ctx):
     rng = Rec(cls='pkg:xltypes:XLRange', cells=[[S + 'A1'], [S + 'B1']], name='rng', address_str=S + 'A1:B1')
     before_keys = set(cells)
     before_ids = {k: id(v) for k, v in cells.items()}
+    before_ranges = set()
     model, out = _run_extract(ctx, cells, {'nm': named, 'rng': rng}, [S + 'C1', 'nm', 'rng'])
     if out.end != 'return' or not _is_model(out.value):
         raise Unmodelled(f'extract on the aliasing witness ends in {out.end} {out.value!r}')
@@ -170,7 +193,7 @@ def rule_3(ctx):
     shared_n = [k for k, v in ext.get('defined_names').items() if v is named or v is rng]
     ctx.expect(not shared_n, fn, 'extracted defined names are copies', f'defined-name objects are shared with the original: {shared_n}')
     ctx.expect(set(model.get('cells')) == before_keys and all(id(model.get('cells')[k]) == before_ids[k] for k in before_keys)
-               and set(model.get('defined_names')) == {'nm', 'rng'} and not model.get('ranges') and not model.get('formulae')
+               and set(model.get('defined_names')) == {'nm', 'rng'} and set(model.get('ranges')) == before_ranges and not model.get('formulae')
                and model.get('built') == 0, fn, 'the original model is left unchanged',
                'extract() adds, removes or replaces entries of the original model')
     ctx.expect({'nm', 'rng'} <= set(ext.get('defined_names')) and {S + 'N1', S + 'A1', S + 'B1', S + 'C1', S + 'D1'} <= set(ext.get('cells')), fn,
